@@ -4,7 +4,7 @@
    calls impl Hash makes on the Hasher, cy_order = cypher_order (ORDER BY); all of
    coq/model/Value.v, for values of every variant and every nesting depth. *)
 From Coq Require Import List NArith ZArith Bool Permutation Sorted.
-From Verif Require Import Value ValueProofs.
+From Verif Require Import Value Index ValueProofs.
 Import ListNotations.
 Open Scope Z_scope.
 
